@@ -8,7 +8,10 @@ use crate::{
     util::fs::read_utils,
 };
 use serde::{Deserialize, Serialize};
+#[cfg(not(all(kani, feature = "verif-models")))]
 use std::collections::HashMap;
+#[cfg(all(kani, feature = "verif-models"))]
+use crate::util::verif_collections::HashMap;
 
 #[derive(Serialize, Deserialize)]
 #[serde(tag = "type")]
